@@ -163,6 +163,38 @@ class Fold(ast.NodeTransformer):
                 if isinstance(r, (str, bool)):
                     self.changed = True
                     return ast.copy_location(ast.Constant(value=r), n)
+        # functools.reduce(OP, [a, b, c][, init]) over a display, OP a binary operator function  ->  ((init OP a) OP b) OP c
+        if U(n.func) in ("functools.reduce", "reduce") and 2 <= len(n.args) <= 3 and not n.keywords and isinstance(n.args[1], (ast.List, ast.Tuple)) \
+                and not any(isinstance(x, ast.Starred) for x in n.args[1].elts) and 1 <= len(n.args[1].elts) <= 8:
+            _OPS = {"operator.add": ast.Add, "operator.sub": ast.Sub, "operator.mul": ast.Mult, "operator.truediv": ast.Div, "operator.matmul": ast.MatMult,
+                    "operator.and_": ast.BitAnd, "operator.or_": ast.BitOr, "operator.xor": ast.BitXor, "np.add": ast.Add, "np.multiply": ast.Mult, "np.subtract": ast.Sub,
+                    "np.logical_or": ast.BitOr, "np.logical_and": ast.BitAnd}
+            opn = U(n.args[0])
+            items = list(n.args[1].elts)
+            acc = n.args[2] if len(n.args) == 3 else items.pop(0)
+            if opn in _OPS and opn not in ("np.logical_or", "np.logical_and"):
+                for x in items:
+                    acc = ast.BinOp(left=acc, op=_OPS[opn](), right=x)
+                self.changed = True
+                return ast.copy_location(acc, n)
+            if isinstance(n.args[0], ast.Lambda) and len(n.args[0].args.args) == 2 and not (n.args[0].args.vararg or n.args[0].args.kwarg or n.args[0].args.defaults):
+                pa, pb = [p_.arg for p_ in n.args[0].args.args]
+                body = n.args[0].body
+                ua = sum(1 for x in ast.walk(body) if isinstance(x, ast.Name) and x.id == pa)
+                ub = sum(1 for x in ast.walk(body) if isinstance(x, ast.Name) and x.id == pb)
+                if ua <= 1 and ub <= 1:
+                    for x in items:
+                        acc = _Sub({pa: acc, pb: x}, {}).visit(copy.deepcopy(body))
+                    self.changed = True
+                    return ast.copy_location(acc, n)
+        # len((a, b, c)) / len([a, b])  of a display without starred items
+        if isinstance(n.func, ast.Name) and n.func.id == "len" and len(n.args) == 1 and not n.keywords:
+            d_ = n.args[0]
+            if isinstance(d_, ast.Name) and self.f is not None:
+                d_ = _display_local(self.f, d_.id)
+            if isinstance(d_, (ast.List, ast.Tuple)) and not any(isinstance(x, ast.Starred) for x in d_.elts):
+                self.changed = True
+                return ast.copy_location(ast.Constant(value=len(d_.elts)), n)
         # sum([a, b, c]) -> a + b + c   (0 + a == a for numbers and arrays alike)
         if isinstance(n.func, ast.Name) and n.func.id == "sum" and len(n.args) == 1 and not n.keywords and isinstance(n.args[0], (ast.List, ast.Tuple)) \
                 and 1 <= len(n.args[0].elts) <= 8 and not any(isinstance(x, ast.Starred) for x in n.args[0].elts):
@@ -2475,6 +2507,8 @@ def partial_evaluate(repo, max_rounds=8):
             if c0:
                 ch = True
                 steps.append("reduce")
+                from .normalize import _Synonyms
+                f.node = _Synonyms().visit(f.node)          # acc = operator.add(acc, x)  ->  acc = acc + x
             if inline_expression_helpers(repo, f):
                 ch = True
                 steps.append("helpers")
